@@ -42,12 +42,8 @@ def vacuity(r):
     runs = s.get("runs_ok", 0) + s.get("runs_err", 0)
     if s.get("harness_err", 0):
         return f"{s['harness_err']} cases could not be executed by the harness"
-    if not r.get("n_gen") and not r.get("n_emitted"):
-        return None                                   # --replay of a single case
-    # a Level-A failure on a generated case is reported by the decision step; the complaints below are about
-    # a run that was quiet for the wrong reason
-    if any("known_input" not in b["desc"] for b in r.get("bad", {}).values()):
-        return None
+    # (the framework evaluates this after the decision step and not on --replay: the complaints below are about a
+    # run that was quiet for the wrong reason)
     if s.get("steps", 0) == 0 or runs == 0:
         return "no run was recorded"
     if s.get("runs_ok", 0) * 2 < runs:
@@ -151,7 +147,9 @@ CORRUPT = {
 
 RULE = ("cases = seeded random single-line networks (2-8 links, 300 m-6 km, nested/overlapping head- and tail-end "
         "restrictions, grades) x realistic trains (10-85 cars of the six resource car types, default and mixed consists) x "
-        "path schedule (whole / link by link / timed path from make_est_times + run_dispatch / make_est_times alone), outside "
+        "path schedule (whole, incl. paths barely longer than the train / link by link / timed path from make_est_times + "
+        "run_dispatch / make_est_times alone / stop-and-go: extend_path + the library's walk() after each link, short last "
+        "links / the library's walk_timed_path() on a timed path that makes the train wait before short links are released), outside "
         "the input classes ShortWindow and LightTrain; + every admitted profile of the bounded BrakingCurve model replayed on "
         "the real recalc at toy scale; + the materialised inputs of the known findings. distinct = distinct descriptors "
         "(sha256); non-trivial = at least one restriction below the train's maximum speed / one slow-down in the profile")
@@ -212,7 +210,8 @@ ENGINE = dict(name="Control", path="specs/Control.tla", serves_properties=["C03"
                              "the real recalc); seeded generator of realistic runs driven step by step; TLC trace validation "
                              "(ControlTrace.tla)")
 _NOTE = ("Trusted: TLC, the serde projection of TrainState / PathTpc / BrakingPoints, the harness' own step loop (walk_internal's "
-         "condition + step cap; compared with the library's walk()/walk_timed_path() on a clone). Bounded: random runs at dt = 1 s "
+         "condition + step cap; the library's own walk()/walk_timed_path() is called once that loop has terminated and is judged "
+         "by StopWindow on the state it returns). Bounded: random runs at dt = 1 s "
          "outside the two excluded input classes; BrakingCurve model exhaustive only up to its bounds (<= 5 zones). Known: F-C03-1, "
          "F-C03-2, F-C03-3 (materialised inputs replayed on every run).")
 MANIFEST = {
